@@ -124,10 +124,10 @@ class Excel:
             if first.column == second.column:
                 # A:A range case
                 return [[i] for i in self._get_vertical_range(first, second)]
-            # A:C range case
-            result = list((self._get_vertical_range(Cell(first.title, column_index, None), Cell(
-                first.title, column_index, None)) for column_index in range(first.column, second.column+1)))
-            return result
+            # A:C range case: one list per row of the sheet, like any other rectangular area
+            return [[self._fill_cell(Cell(first.title, column_index, row))
+                     for column_index in range(first.column, second.column + 1)]
+                    for row in range(len(self._data[first.title]))]
         elif isinstance(first.row, int) and first.row >= 0 and second.row >= 0:
             return self._get_matrix(first, second)
         else:
